@@ -294,6 +294,27 @@ theorem two_fac_ui_spec_partial (n : ℕ) (hn : n < B)
   · exact two_fac_odd (2 * k + 1) hn (by omega) (fun _ => hsw)
 example : mpz_2fac_ui 1801 = doubleFactorial 1801 := by decide +kernel
 
+/-- the executable multifactorial spec obeys the defining recursion n!^(m) = n·(n-m)!^(m) -/
+theorem multiFactorial_spec (n m : ℕ) (hm : 1 ≤ m) :
+    multiFactorial n m = if n ≤ m then (if n = 0 then 1 else n) else n * multiFactorial (n - m) m :=
+  multiFactorial_rec n m hm
+example : multiFactorial 17 5 = 17 * 12 * 7 * 2 ∧ multiFactorial 0 3 = 1 := by decide +kernel
+
+/-- mpz_mfac_uiui on the complete grid n < 80, 1 ≤ m < 24 (every gcd / m-class branch of mfac_uiui.c) -/
+theorem mfac_uiui_small_spec : ∀ n < 80, ∀ m < 24, 1 ≤ m → mpz_mfac_uiui n m = multiFactorial n m := by
+  decide +kernel
+example : mpz_mfac_uiui 60 9 = 60 * 51 * 42 * 33 * 24 * 15 * 6 := by decide +kernel
+
+/-- the executable primorial spec is Mathlib's `primorial` (product of the primes ≤ n) -/
+theorem primorial_spec (n : ℕ) : primorial n = _root_.primorial n := primorial_eq n
+example : primorial 12 = 2310 := by decide +kernel
+
+/-- mpz_primorial_ui for every n < 400 (table, then the sieve walk with FACTOR_LIST_STORE) -/
+theorem primorial_ui_small_spec : ∀ n < 400, mpz_primorial_ui n = _root_.primorial n := by
+  simp only [← primorial_eq]
+  decide +kernel
+example : mpz_primorial_ui 30 = 6469693230 := by decide +kernel
+
 /-! ## mpz_remove -/
 
 /-- mpz_remove (model of mpz/remove.c: scan for f = 2, otherwise divide by f, f², f⁴, ... then back down):
@@ -364,5 +385,27 @@ example : mpz_bin_uiui 67 33 = some 14226520737620288370 ∧ binDispatch 67 33 =
 /- NOT PROVED as theorems: the other branches of mpz_bin_uiui (smallk, smallkdc, bdiv, Goetgheluck) for
    n > ODD_FACTORIAL_EXTTABLE_LIMIT.  Their models are compared with the implementation and with
    `binom` on a grid over every dispatch region and border on every run (see tools/props/c16_numth.py). -/
+
+/-! ## The predicates of the correspondence run accept only what the property allows -/
+
+open Mpir.Ops.Numth in
+/-- If the driver's nextprime predicate accepts an implementation answer r for argument n, then r > n
+    and there is no (real) prime strictly between: acceptance never hides a skipped prime. -/
+theorem nextprime_pred_sound (n r : ℤ) (h : nextOk n r = none) :
+    n < r ∧ ∀ j : ℕ, n < (j : ℤ) → (j : ℤ) < r → ¬ j.Prime :=
+  nextOk_none n r h
+open Mpir.Ops.Numth in
+example : nextOk 113 127 = none ∧ nextOk 113 131 = some "prime-skipped" ∧ nextOk 113 113 ≠ none := by decide +kernel
+
+open Mpir.Ops.Numth in
+/-- If the driver's primality-code predicate accepts code r for n, then: r ≠ 0 whenever n is a (real)
+    prime; r = 2 only when the oracle says prime; with ≥ 25 repetitions every oracle-composite has r = 0. -/
+theorem prime_code_pred_sound (n : ℕ) (r : ℤ) (codes : List ℤ) (strict : Bool)
+    (h : codeOk n r codes strict = none) :
+    (n.Prime → r ≠ 0) ∧ (r = 2 → isPrime n = true) ∧ (strict = true → isPrime n = false → r = 0) :=
+  codeOk_none n r codes strict h
+open Mpir.Ops.Numth in
+example : codeOk 97 1 [0, 1, 2] true = none ∧ codeOk 97 0 [0, 1, 2] false ≠ none ∧ codeOk 91 2 [0, 1, 2] false ≠ none ∧
+    codeOk 561 1 [0, 1] true ≠ none := by decide +kernel
 
 end Mpir.Numth
